@@ -22,6 +22,7 @@ func init() {
 			"(R5) wired precompile addresses = AvailableEVMExtensions = the bech32 list that BlockedAddrs blocks.",
 		Assumptions: []string{"frozen effects table of which SDK msg-server methods move bank balances (cosmos-sdk v0.47.12-evmos.2, ibc-go v7.4.0; checked against go.mod on every run)", "geth interpreter moves value only through StateDB.AddBalance/SubBalance"},
 		Declined:    []string{"the exact per-account balance equation and correctness of mirrored amounts/addresses"},
+		Thorough:    wholeProgramEffects,
 	})
 }
 
